@@ -94,6 +94,45 @@ pub open spec fn is_static(m: MV) -> bool
     }
 }
 
+/// layouts without DynOption / Option / Array: every field is read in order, a sized Vec<u8> reads exactly its size, an empty one reads
+/// to the end of the (sub-)stream: the bytes consumed are exactly the serialization of what was read
+pub open spec fn is_plain(m: MV) -> bool
+    decreases m
+{
+    match m {
+        MV::U8(_) => true,
+        MV::U16(_, _) => true,
+        MV::U32(_, _) => true,
+        MV::Bytes(_) => true,
+        MV::Trame(s) => forall|i: int| 0 <= i < s.len() ==> is_plain(#[trigger] s[i]),
+        MV::Comp(f) => forall|i: int| 0 <= i < f.len() ==> is_plain((#[trigger] f[i]).1),
+        MV::Check(b) => is_plain(*b),
+        _ => false,
+    }
+}
+
+/// a lower bound on the bytes a successful read consumes: leaves have their width, a record at least its fields up to and including the
+/// first DynOption field (no earlier option can have skipped or resized them)
+pub open spec fn min_wire_len(m: MV) -> nat
+    decreases m, 1int, 0int
+{
+    match m {
+        MV::U8(_) => 1,
+        MV::U16(_, _) => 2,
+        MV::U32(_, _) => 4,
+        MV::Bytes(b) => b.len(),
+        MV::Check(b) => min_wire_len(*b),
+        MV::Dyn(b, _) => min_wire_len(*b),
+        MV::Comp(f) => min_fields_from(f, 0),
+        _ => 0,
+    }
+}
+pub open spec fn min_fields_from(f: Seq<(Seq<char>, MV)>, i: int) -> nat
+    decreases f, 0int, f.len() - i
+{
+    if i < 0 || i >= f.len() { 0 } else if f[i].1 is Dyn { min_wire_len(f[i].1) } else { min_wire_len(f[i].1) + min_fields_from(f, i + 1) }
+}
+
 pub enum MessageOption {
     SkipField(String),
     Size(String, usize),
@@ -156,7 +195,9 @@ pub trait Message: Sized {
                 &&& old(reader).rest().len() >= n
                 &&& ser(final(self).mv()) == old(reader).rest().take(n)
                 &&& final(reader).rest() == old(reader).rest().skip(n)
-            });
+            }),
+            r is Ok && is_plain(old(self).mv()) ==> old(reader).rest() == ser(final(self).mv()) + final(reader).rest(),
+            r is Ok ==> old(reader).rest().len() >= final(reader).rest().len() + min_wire_len(old(self).mv());
 
     fn length(&self) -> (r: u64)
         ensures r == ser(self.mv()).len();
